@@ -36,6 +36,11 @@ type Case struct {
 	UseOverride bool
 	// DottedPath: the struct package lives at a gopkg.in-style import path ("…/name.v1").
 	DottedPath bool
+	// SameName: the terraform package has the same NAME as the struct package but is a different directory.
+	SameName bool
+	// ForeignGoPackage: the file's go_package names another import path ending in the struct package
+	// name; the structs really live where import_path_overrides says (vendored / relocated structs).
+	ForeignGoPackage bool
 	// RawParam, when set, replaces the computed parameter string (C16 error cases).
 	RawParam *string
 	// NoWrite: do not place the case in the Go workspace (L1-only cases).
@@ -77,6 +82,9 @@ func structPkgName(f *ir.File) string {
 func (w *Workspace) Prepare(c *Case) {
 	c.StructPkg = structPkgName(c.File)
 	base := "vw/cases/" + c.Name
+	if c.Separate && c.ForeignGoPackage && c.UseOverride && c.File.Dep == nil {
+		c.File.GoPackage = "upstream.example/api/" + c.StructPkg
+	}
 	if c.Separate {
 		c.StructImport = base + "/" + c.StructPkg
 		if c.DottedPath {
@@ -88,6 +96,11 @@ func (w *Workspace) Prepare(c *Case) {
 			c.Cfg.TargetPackageName = tp
 		}
 		c.TFImport = base + "/" + tp
+		if c.SameName {
+			tp = c.StructPkg
+			c.Cfg.TargetPackageName = tp
+			c.TFImport = base + "/tf/" + tp
+		}
 		if c.UseOverride {
 			c.Cfg.DefaultPackageName = c.StructPkg
 			if c.Cfg.ImportPathOverrides == nil {
